@@ -1,6 +1,6 @@
 -------------------------- MODULE ParamGettersOps --------------------------
 (* C08, getters half: the protocol every typed getter of a request follows
-   (get_param, get_param_as_int/float/bool/uuid/datetime/date/json/list).
+   (get_param, get_param_as_int/float/bool/uuid/datetime/date/json/list) and has_param.
 
    A parameter is absent, or present with a non-empty sequence of values (in order of
    occurrence).  The reference conversion of a value for a getter kind is an input of the
@@ -27,7 +27,8 @@ Vals(cs)  == [i \in 1..Len(cs) |-> cs[i].v]
 
 (* present: BOOLEAN; convs: the reference conversions of ALL occurrences, in order *)
 Outcome(present, convs, c) ==
-    IF ~present THEN
+    IF c.kind = "has" THEN Out("value", "", IF present THEN 1 ELSE 0, <<>>, FALSE)     \* has_param: no protocol at all
+    ELSE IF ~present THEN
         (IF c.required THEN Out("missing", "", 0, <<>>, FALSE)
          ELSE Out(IF c.hasdef THEN "default" ELSE "none", "", 0, <<>>, FALSE))
     ELSE IF c.kind \in ListKinds THEN
